@@ -212,6 +212,9 @@ def run(ctx, model_ok):
         ctx.sample({"case": str(cases[k][0]), "src": cases[k][1][-400:], "impl_stderr": impl[k]["stderr"]})
     # lexical and parse errors + successful scripts: generic grammar
     fe = gens.unterminated() + gens.mutations(gens.seed_programs(), ctx.rng, per=3 if ctx.tier == "quick" else 40)
+    # only inputs the front end rejects (a mutated program that still parses may loop forever)
+    verdicts = core.batch("impl", "ast", fe)
+    fe = [s for s, b in zip(fe, verdicts) if b.startswith("ERR")]
     impl2, dis2 = tie.run(ctx, fe, "front_end_errors", model_ok)
     bad2 = []
     for s, r in zip(fe, impl2):
